@@ -20,7 +20,7 @@ class Interleaving(Harness):
     classes = {}
     def __init__(self, tier):
         self.shape = [2, 2] if tier == 'quick' else [2, 2, 1]
-        self.maxn = 1 if tier == 'quick' else 2
+        self.maxn = 1          # one character out of {a, b} per cell already gives equal / overlapping / disjoint string sets
         self.doc = '%d savers over one shared-string table (a workbook with unloaded sheets saved through shared references, or its clones), saver i registering %s text cells of symbolic content through the real Cell::write_to and then dumping the table through the real writer::xlsx::shared_strings::write; the order in which the savers take their steps is chosen by the solver (every interleaving): no step panics, and in the dump a saver takes every one of its cells refers to the index of its own text' % (len(self.shape), self.shape)
         self.bounds = {'savers': len(self.shape), 'cells_per_saver': self.shape, 'text_chars': [1, self.maxn], 'alphabet': 'a-b (equal, overlapping and disjoint string sets all occur)', 'preloaded_strings': [0, 1],
                        'granularity': 'a scheduling point before every cell registration and before every dump; inside a step the table is touched only under its lock (the harness counts the lock acquisitions of each step and refuses to conclude if a registration takes the lock more than once)',
@@ -230,4 +230,4 @@ class SaveInterleaving(Harness):
 
 def harnesses(tier):
     return [Interleaving(tier), SaveInterleaving(tier)]
-OPTIONS = {'want_smir': True, 'level': 'other'}
+OPTIONS = {'want_smir': True}
